@@ -54,6 +54,7 @@ R_KM = 6371
 # sentence generation (independent of pyais: ITU-R M.1371 offsets)
 # (type id, nominal bits, lon offset, lon bits, lat offset, lat bits, units per degree)
 POSITION_TYPES = {
+    0: (168, 61, 28, 89, 27, 600000),      # message id 0 is decoded with the layout of type 1 and KEEPS msg_type == 0
     1: (168, 61, 28, 89, 27, 600000), 2: (168, 61, 28, 89, 27, 600000), 3: (168, 61, 28, 89, 27, 600000),
     4: (168, 79, 28, 107, 27, 600000), 11: (168, 79, 28, 107, 27, 600000), 9: (168, 61, 28, 89, 27, 600000),
     17: (80, 40, 18, 58, 17, 10), 18: (168, 57, 28, 85, 27, 600000), 19: (312, 57, 28, 85, 27, 600000),
@@ -564,7 +565,7 @@ def build_pool(ctx, n_groups):
     def add(bits, kind):
         pool.append({'lines': sentences_of(rng, bits, next(seq)), 'kind': kind})
 
-    for t in range(1, 28):                                   # every type, random content, nominal length
+    for t in range(0, 28):                                   # every type (0 too: decoded as type 1), random content, nominal length
         for _ in range(2):
             add(payload(rng, t), 'random-full')
     while len(pool) < n_groups:
@@ -627,7 +628,7 @@ def gen_filter(rng, kind, msgs, names, anchors):
     if kind == 'T':
         present = sorted({int(m.msg_type) for m in msgs if not isinstance(m, Exception)}) or [1]
         k = rng.choice([0, 1, 2, 3, 6, 12, 12])
-        return ('T', sorted({rng.choice(present) if rng.random() < 0.8 else rng.randrange(0, 30) for _ in range(k)}))
+        return ('T', sorted({rng.choice(present) if rng.random() < 0.8 else rng.choice([0, 0, 28, 31, 63, -1, rng.randrange(0, 30)]) for _ in range(k)}))
     if kind == 'D':
         r = rng.random()
         if positions and r < 0.5:
@@ -669,7 +670,7 @@ def gen_filter(rng, kind, msgs, names, anchors):
     if pk == 'c':
         return ('A', ['c', rng.random() < 0.7])
     if pk == 'te':
-        return ('A', ['te', rng.randrange(1, 28)])
+        return ('A', ['te', rng.randrange(0, 28)])
     name = rng.choice(names)
     if pk == 'lt':
         return ('A', ['lt', name, num(rng.choice([0, 0.0, 1, 10.5, 100, 1e9, -1.0]))])
@@ -958,7 +959,7 @@ def synthetic(ctx, names, anchors):
                 v = rng.choice(vals)
                 if v != 'absent':
                     attrs[name] = v
-            objs.append(Synth(rng.randrange(1, 28), attrs))
+            objs.append(Synth(rng.choice([0, 0, 28, 63, -1]) if rng.random() < 0.15 else rng.randrange(1, 28), attrs))
         k = rng.choice([1, 1, 2, 3])
         kinds = [rng.choice('DGDGNAT') for _ in range(k)]
         fs = [gen_filter(rng, kd, objs, ['lat', 'lon', 'speed', 'shipname', 'foo'], anchors) for kd in kinds]
